@@ -1,5 +1,6 @@
 (* C09 - radiotap headers are decoded at their specified aligned offsets or refused.  Statements only. *)
-From LW Require Import Base.Bytes Model.Radiotap Spec.RadiotapSpec Proofs.RadiotapProofs.
+From LW Require Import Base.Bytes Model.Radiotap Spec.RadiotapSpec Spec.RadiotapChainSpec Proofs.RadiotapProofs
+  Proofs.RadiotapChainProofs.
 Local Open Scope Z_scope.
 
 (* every byte string, any chain of present words, namespaces and vendor data: the decoder terminates
@@ -40,3 +41,26 @@ Print Assumptions c09_table.
 Theorem c09_band_channel : forall f, 0 <= f < 65536 -> band_center f = s_band_center f.
 Proof. exact band_center_ok. Qed.
 Print Assumptions c09_band_channel.
+
+(* every well-formed header with ANY chain of present words - any number of words, namespace resets
+   (bit 29), vendor namespaces (bit 30: 6-byte header at 2-byte alignment, any skip length, vendor
+   words with arbitrary field bits, continued or followed by further vendor namespaces), all field
+   values, padding and trailing bytes - decodes to the values stored at the naturally aligned
+   little-endian offsets the radiotap specification assigns (s_chain_layout: structural recursion over
+   the list of present words), per-antenna signals included; rd is arbitrary outside the buffer *)
+Theorem c09_chain : forall buf rd, wfbytes buf -> agrees rd buf -> s_wf_chain buf ->
+  parse_radiotap_info rd (zlen buf) = Done (Ok (s_info_chain buf)).
+Proof. exact rt_chain. Qed.
+Print Assumptions c09_chain.
+
+(* the class is decidable, and it contains every well-formed single-word header, on which the chain
+   specification is the single-word one *)
+Theorem c09_chain_decidable : forall buf, s_wf_chainb buf = true <-> s_wf_chain buf.
+Proof. exact s_wf_chainb_iff. Qed.
+Print Assumptions c09_chain_decidable.
+Theorem c09_chain_extends_single : forall buf, wfbytes buf -> s_wf1 buf ->
+  s_wf_chain buf /\ s_info_chain buf = s_info buf.
+Proof.
+  intros buf Hwf H1. split; [apply (wf1_wf_chain buf Hwf H1)|apply (chain_single buf Hwf H1)].
+Qed.
+Print Assumptions c09_chain_extends_single.
